@@ -1,1 +1,169 @@
-From Verif Require Import Base.Prelude Model.C28 Proofs.C28 Model.C29 Proofs.C29.
+(** C29 — Authorization wrappers never leak or modify unauthorized resources.
+    Property theorems only.  The model ([Model/C29.v]) mirrors authorizer/{bucket,org,user,
+    auth,authorize,authorize_find}.go and authorization/middleware_auth.go over a small model
+    of the wrapped tenant/authorization services; [step c s x] is one wrapped call by caller
+    [c] in store [s]; [trace c s xs] the history of a call sequence.  [holds c q] = the
+    caller's token is active and one of its permissions grants [q] in the sense of C28. *)
+From Verif Require Import Base.Prelude Model.C28 Proofs.C28 Model.C29 Proofs.C29 Proofs.C29_frame.
+
+(** 1. Every id returned by any wrapped call names a stored resource of the wrapper's kind
+    all of whose read permissions (as the wrapper builds them: [read_reqs]) the caller holds. *)
+Theorem C29_no_leak :
+  forall c s x i, In i (ids (step c s x)) -> readable_in c s (call_kind x) i.
+Proof. exact no_leak. Qed.
+Print Assumptions C29_no_leak.
+
+(** … along every history, for all permission sets and call sequences. *)
+Theorem C29_no_leak_history :
+  forall c s0 xs,
+    Forall (fun t => forall i, In i (ids (snd t)) ->
+                     readable_in c (fst (fst t)) (call_kind (snd (fst t))) i) (trace c s0 xs).
+Proof. intros c s0 xs. apply (trace_forall (fun s x r => forall i, In i (ids r) -> readable_in c s (call_kind x) i)).
+  intros s x i. apply no_leak. Qed.
+Print Assumptions C29_no_leak_history.
+
+(** 2. A mutating call that succeeds — or changes the store at all — was entitled to:
+    create: the create permissions (and, for tokens, every granted permission);
+    update/delete: the write permissions of the target. *)
+Theorem C29_mutation_requires_write :
+  forall c s x, (cls (step c s x) = E_OK \/ st (step c s x) <> s) -> write_authorized c s x.
+Proof. exact mutation_requires_write. Qed.
+Print Assumptions C29_mutation_requires_write.
+
+Theorem C29_mutation_requires_write_history :
+  forall c s0 xs,
+    Forall (fun t => (cls (snd t) = E_OK \/ st (snd t) <> fst (fst t)) ->
+                     write_authorized c (fst (fst t)) (snd (fst t))) (trace c s0 xs).
+Proof. intros c s0 xs.
+  apply (trace_forall (fun s x r => (cls r = E_OK \/ st r <> s) -> write_authorized c s x)).
+  intros s x. apply mutation_requires_write. Qed.
+Print Assumptions C29_mutation_requires_write_history.
+
+(** 3. Tokens: a token is created only if the caller holds every permission being granted
+    (the property's clause, literally). *)
+Theorem C29_token_requires_every_granted_permission :
+  forall c s v new sysids q, r_kind new = KAuth ->
+    (cls (step c s (CCreate v new sysids)) = E_OK \/ st (step c s (CCreate v new sysids)) <> s) ->
+    In q (r_perms new) -> holds c q.
+Proof. exact token_requires_held. Qed.
+Print Assumptions C29_token_requires_every_granted_permission.
+
+(** The SEMANTIC reading of "no escalation" — whatever the new token allows, the caller was
+    allowed too —
+
+      forall c s v new sysids q, r_kind new = KAuth ->
+        cls (step c s (CCreate v new sysids)) = E_OK ->
+        allowed (r_perms new) q = true -> held c q = true
+
+    is REFUTED by the faithful model: a caller with write on the buckets OF ORG 1 may grant
+    {write, buckets, id = 106, org = 1}; [matchesV1] of such a permission ignores its org and
+    matches bucket 106 of ORG 2.  Confirmed on the real code (findings.d/C29.json). *)
+Definition C29_witness_caller : caller :=
+  {| c_perms := [mk A_WRITE T_BUCKET None (Some 1); mk A_WRITE T_AUTH None (Some 1);
+                 mk A_WRITE T_USER (Some 1) None]%N;
+     c_active := true; c_user := 1%N |}.
+Definition C29_witness_store : store :=
+  mkstore [mkres KUser 1 0 0 false 10 false []; mkres KOrg 1 0 0 false 21 false [];
+           mkres KOrg 2 0 0 false 22 false []; mkres KBucket 106 2 0 false 32 false []]%N [].
+Definition C29_witness_token : rsrc :=
+  mkres KAuth 1003 1 1 false 50 true [mk A_WRITE T_BUCKET (Some 106) (Some 1)]%N.
+
+Theorem C29_token_no_escalation_refuted :
+  exists c s v new sysids q, r_kind new = KAuth /\
+    cls (step c s (CCreate v new sysids)) = E_OK /\
+    allowed (r_perms new) q = true /\ held c q = false.
+Proof.
+  exists C29_witness_caller, C29_witness_store, 1%N, C29_witness_token, [],
+         (mk A_WRITE T_BUCKET (Some 106) (Some 2))%N.
+  vm_compute. repeat split.
+Qed.
+Print Assumptions C29_token_no_escalation_refuted.
+
+(** Strongest true weakening: when no granted permission names BOTH an id and an org, a
+    created token allows nothing the caller does not hold. *)
+Theorem C29_token_no_escalation_partial :
+  forall c s v new sysids, r_kind new = KAuth ->
+    (cls (step c s (CCreate v new sysids)) = E_OK \/ st (step c s (CCreate v new sysids)) <> s) ->
+    Forall one_scope (r_perms new) ->
+    forall q, allowed (r_perms new) q = true -> holds c q.
+Proof.
+  intros c s v new sysids K H Ho q Hq.
+  apply no_escalation_one_scope with (granted := r_perms new); auto.
+  apply Forall_forall. intros g Hg. eapply token_requires_held; eauto.
+Qed.
+Print Assumptions C29_token_no_escalation_partial.
+
+(** 4. A denied call (EUnauthorized / EForbidden) leaves the stored state unchanged … *)
+Theorem C29_denied_leaves_state :
+  forall c s x, denied (step c s x) -> st (step c s x) = s.
+Proof. exact denied_leaves_state. Qed.
+Print Assumptions C29_denied_leaves_state.
+
+Theorem C29_denied_leaves_state_history :
+  forall c s0 xs, Forall (fun t => denied (snd t) -> st (snd t) = fst (fst t)) (trace c s0 xs).
+Proof. intros c s0 xs. apply (trace_forall (fun s x r => denied r -> st r = s)).
+  intros s x. apply denied_leaves_state. Qed.
+Print Assumptions C29_denied_leaves_state_history.
+
+(** … and a mutating call the caller is not entitled to is answered with an error and
+    changes nothing. *)
+Theorem C29_unauthorized_mutation_rejected :
+  forall c s x, ~ write_authorized c s x -> cls (step c s x) <> E_OK /\ st (step c s x) = s.
+Proof. exact unauthorized_mutation_rejected. Qed.
+Print Assumptions C29_unauthorized_mutation_rejected.
+
+(** 5. "never modify unauthorized resources", as a frame property: a stored resource the
+    caller may not touch ([may_touch]: write on the resource itself, or — for a bucket — write
+    on its organization, whose deletion cascades) is still in the store, unchanged, after any
+    wrapped call.  [uniq s]: (kind, id) identifies a resource of [s]. *)
+Theorem C29_unauthorized_resources_unmodified :
+  forall c s x r0, uniq s -> In r0 (s_res s) -> ~ may_touch c r0 ->
+    In r0 (s_res (st (step c s x))).
+Proof. exact untouchable_resources_survive. Qed.
+Print Assumptions C29_unauthorized_resources_unmodified.
+
+(** Full statement for histories:
+      forall c s0 xs r0, uniq s0 -> In r0 (s_res s0) -> ~ may_touch c r0 ->
+        In r0 (s_res (snd (run c s0 xs)))
+    Proved with the hypothesis that (kind, id) stays a key of every intermediate store; that is
+    preserved by every find/update/delete ([C29_keys_preserved_by_non_create]); for creates it
+    needs the freshness of the ids the services generate (generateSafeID), which are inputs of
+    the model. *)
+Theorem C29_unauthorized_resources_unmodified_history_partial :
+  forall c xs s0 r0, Forall (fun t => uniq (fst (fst t))) (trace c s0 xs) ->
+    In r0 (s_res s0) -> ~ may_touch c r0 -> In r0 (s_res (snd (run c s0 xs))).
+Proof. exact untouchable_resources_survive_history. Qed.
+Print Assumptions C29_unauthorized_resources_unmodified_history_partial.
+
+Theorem C29_keys_preserved_by_non_create :
+  forall c s x, (match x with CCreate _ _ _ => False | _ => True end) -> uniq s -> uniq (st (step c s x)).
+Proof. exact update_delete_keep_keys. Qed.
+Print Assumptions C29_keys_preserved_by_non_create.
+
+(** Corollaries. *)
+Theorem C29_inactive_caller_gets_nothing :
+  forall c s x, c_active c = false -> ids (step c s x) = [] /\ st (step c s x) = s.
+Proof. exact inactive_caller_gets_nothing. Qed.
+Print Assumptions C29_inactive_caller_gets_nothing.
+
+(** The find filters do not over-filter either: a candidate the caller may read is returned. *)
+Theorem C29_find_many_complete :
+  forall c s k f l, (k = KOrg -> f <> FNone) -> findn c s k f = done l s ->
+    forall rs r, candidates s k f = inl rs -> In r rs ->
+      authorize_all c (read_reqs r) = AzOk -> In (r_id r) l.
+Proof. exact findn_complete. Qed.
+Print Assumptions C29_find_many_complete.
+
+(** Non-vacuity: an org-1-scoped caller lists exactly the bucket of org 1, is refused the
+    update of the bucket of org 2 (store unchanged), and updates its own. *)
+Example C29_nonvacuous :
+  let c := {| c_perms := [mk A_READ T_BUCKET None (Some 1); mk A_WRITE T_BUCKET None (Some 1)]%N;
+              c_active := true; c_user := 1%N |} in
+  let s := mkstore [mkres KOrg 1 0 0 false 21 false []; mkres KOrg 2 0 0 false 22 false [];
+                    mkres KBucket 105 1 0 false 31 false []; mkres KBucket 106 2 0 false 32 false []]%N [] in
+  ids (step c s (CFindN KBucket FNone)) = [105%N] /\
+  cls (step c s (CUpdate KBucket 0 106 9 true)) = E_UNAUTH /\
+  st (step c s (CUpdate KBucket 0 106 9 true)) = s /\
+  cls (step c s (CUpdate KBucket 0 105 9 true)) = E_OK /\
+  st (step c s (CUpdate KBucket 0 105 9 true)) <> s.
+Proof. vm_compute. repeat split. discriminate. Qed.
